@@ -18,70 +18,70 @@ From RecordUpdate Require Import RecordSet.
 Import RecordSetNotations.
 Open Scope N_scope.
 
-(* the four component types are implicit in every engine function from here on *)
-Arguments init {enc dec} _ {ores ires} _ _.
-Arguments release {enc dec ores ires} _ _ _ _.
-Arguments disconnect_completion {enc dec ores ires} _ _.
-Arguments fail_op {enc dec ores ires} _ _ _ _.
-Arguments ping_extension {enc dec ores ires} _ _.
-Arguments succeed_op {enc dec ores ires} _ _ _ _.
-Arguments fail_all {enc dec ores ires} _ _ _ _.
-Arguments succeed_all {enc dec ores ires} _ _ _.
-Arguments andthen {enc dec ores ires} _ _.
-Arguments try_ {enc dec ores ires} _ _.
-Arguments pure {enc dec ores ires} _.
-Arguments create_operation {enc dec ores ires} _ _.
-Arguments passes_now {enc dec ores ires} _ _ _.
-Arguments user_event {enc dec ores ires} _ _ _ _.
-Arguments create_connect {enc dec ores ires} _ _.
-Arguments net_opened {enc dec} _ {ores ires} _ _ _.
-Arguments op_exists {enc dec ores ires} _ _.
-Arguments op_passes {enc dec ores ires} _ _ _.
-Arguments partition_policy {enc dec ores ires} _ _ _.
-Arguments closed_current {enc dec ores ires} _ _.
-Arguments slow_start_init {enc dec ores ires} _ _.
-Arguments update_retries {enc dec ores ires} _ _.
-Arguments fail_exceeding {enc dec ores ires} _ _.
-Arguments has_pubrel {enc dec ores ires} _ _.
-Arguments net_closed_raw {enc dec ores ires} _ _.
-Arguments net_closed {enc dec ores ires} _ _.
-Arguments net_write_completion {enc dec ores ires} _ _.
-Arguments acquire_free_pid {enc dec ores ires} _ _.
-Arguments acquire_pid_for {enc dec ores ires} _ _.
-Arguments unbind {enc dec ores ires} _ _.
-Arguments passes_receive_max {enc dec ores ires} _ _.
-Arguments throttled {enc dec ores ires} _ _.
-Arguments has_pending_ack {enc dec ores ires} _.
-Arguments dequeue {enc dec ores ires} _ _ _.
-Arguments fully_written {enc dec ores ires} _ _.
-Arguments service_keep_alive {enc dec ores ires} _ _ _.
-Arguments process_ack_timeouts {enc dec ores ires} _ _ _.
-Arguments halt_on_error {enc dec ores ires} _ _.
-Arguments next_service_time {enc dec ores ires} _ _ _.
-Arguments build_settings {enc dec ores ires} _ _ _.
-Arguments apply_session {enc dec ores ires} _ _ _.
-Arguments hres_of {enc dec ores ires} _ _.
-Arguments pre_connack {enc dec ores ires} _.
-Arguments sum_ss {enc dec ores ires} _.
-Arguments handle_pingresp {enc dec ores ires} _.
-Arguments handle_suback {enc dec ores ires} _ _ _.
-Arguments handle_unsuback {enc dec ores ires} _ _ _.
-Arguments publish_qos_of {enc dec ores ires} _ _.
-Arguments handle_puback {enc dec ores ires} _ _ _.
-Arguments handle_pubrec {enc dec ores ires} _ _ _.
-Arguments handle_pubrel {enc dec ores ires} _ _.
-Arguments handle_pubcomp {enc dec ores ires} _ _ _.
-Arguments handle_publish {enc dec ores ires} _ _.
-Arguments handle_disconnect {enc dec ores ires} _ _ _.
-Arguments is_connect_op {enc dec ores ires} _ _.
-Arguments connect_in_queue {enc dec ores ires} _.
-Arguments reset {enc dec ores ires} _ _.
-Arguments out_of_res {enc dec ores ires} _ _.
-Arguments nst_queue {enc dec ores ires} _ _ _ _.
-Arguments earliest_tmo {enc dec ores ires} _.
-Arguments SeatStop {enc dec ores ires} _.
-Arguments SeatContinue {enc dec ores ires} _ _.
-Arguments SeatEncode {enc dec ores ires} _.
+(* the four component types are implicit in the engine functions, locally to this file *)
+#[local] Arguments init {enc dec} _ {ores ires} _ _.
+#[local] Arguments release {enc dec ores ires} _ _ _ _.
+#[local] Arguments disconnect_completion {enc dec ores ires} _ _.
+#[local] Arguments fail_op {enc dec ores ires} _ _ _ _.
+#[local] Arguments ping_extension {enc dec ores ires} _ _.
+#[local] Arguments succeed_op {enc dec ores ires} _ _ _ _.
+#[local] Arguments fail_all {enc dec ores ires} _ _ _ _.
+#[local] Arguments succeed_all {enc dec ores ires} _ _ _.
+#[local] Arguments andthen {enc dec ores ires} _ _.
+#[local] Arguments try_ {enc dec ores ires} _ _.
+#[local] Arguments pure {enc dec ores ires} _.
+#[local] Arguments create_operation {enc dec ores ires} _ _.
+#[local] Arguments passes_now {enc dec ores ires} _ _ _.
+#[local] Arguments user_event {enc dec ores ires} _ _ _ _.
+#[local] Arguments create_connect {enc dec ores ires} _ _.
+#[local] Arguments net_opened {enc dec} _ {ores ires} _ _ _.
+#[local] Arguments op_exists {enc dec ores ires} _ _.
+#[local] Arguments op_passes {enc dec ores ires} _ _ _.
+#[local] Arguments partition_policy {enc dec ores ires} _ _ _.
+#[local] Arguments closed_current {enc dec ores ires} _ _.
+#[local] Arguments slow_start_init {enc dec ores ires} _ _.
+#[local] Arguments update_retries {enc dec ores ires} _ _.
+#[local] Arguments fail_exceeding {enc dec ores ires} _ _.
+#[local] Arguments has_pubrel {enc dec ores ires} _ _.
+#[local] Arguments net_closed_raw {enc dec ores ires} _ _.
+#[local] Arguments net_closed {enc dec ores ires} _ _.
+#[local] Arguments net_write_completion {enc dec ores ires} _ _.
+#[local] Arguments acquire_free_pid {enc dec ores ires} _ _.
+#[local] Arguments acquire_pid_for {enc dec ores ires} _ _.
+#[local] Arguments unbind {enc dec ores ires} _ _.
+#[local] Arguments passes_receive_max {enc dec ores ires} _ _.
+#[local] Arguments throttled {enc dec ores ires} _ _.
+#[local] Arguments has_pending_ack {enc dec ores ires} _.
+#[local] Arguments dequeue {enc dec ores ires} _ _ _.
+#[local] Arguments fully_written {enc dec ores ires} _ _.
+#[local] Arguments service_keep_alive {enc dec ores ires} _ _ _.
+#[local] Arguments process_ack_timeouts {enc dec ores ires} _ _ _.
+#[local] Arguments halt_on_error {enc dec ores ires} _ _.
+#[local] Arguments next_service_time {enc dec ores ires} _ _ _.
+#[local] Arguments build_settings {enc dec ores ires} _ _ _.
+#[local] Arguments apply_session {enc dec ores ires} _ _ _.
+#[local] Arguments hres_of {enc dec ores ires} _ _.
+#[local] Arguments pre_connack {enc dec ores ires} _.
+#[local] Arguments sum_ss {enc dec ores ires} _.
+#[local] Arguments handle_pingresp {enc dec ores ires} _.
+#[local] Arguments handle_suback {enc dec ores ires} _ _ _.
+#[local] Arguments handle_unsuback {enc dec ores ires} _ _ _.
+#[local] Arguments publish_qos_of {enc dec ores ires} _ _.
+#[local] Arguments handle_puback {enc dec ores ires} _ _ _.
+#[local] Arguments handle_pubrec {enc dec ores ires} _ _ _.
+#[local] Arguments handle_pubrel {enc dec ores ires} _ _.
+#[local] Arguments handle_pubcomp {enc dec ores ires} _ _ _.
+#[local] Arguments handle_publish {enc dec ores ires} _ _.
+#[local] Arguments handle_disconnect {enc dec ores ires} _ _ _.
+#[local] Arguments is_connect_op {enc dec ores ires} _ _.
+#[local] Arguments connect_in_queue {enc dec ores ires} _.
+#[local] Arguments reset {enc dec ores ires} _ _.
+#[local] Arguments out_of_res {enc dec ores ires} _ _.
+#[local] Arguments nst_queue {enc dec ores ires} _ _ _ _.
+#[local] Arguments earliest_tmo {enc dec ores ires} _.
+#[local] Arguments SeatStop {enc dec ores ires} _.
+#[local] Arguments SeatContinue {enc dec ores ires} _ _.
+#[local] Arguments SeatEncode {enc dec ores ires} _.
 
 (* ---- packet kinds ---- *)
 Definition pubq (p : packet) : bool := match p with Publish pb => negb (pub_qos pb =? 0) | _ => false end.
@@ -205,22 +205,71 @@ Section Comps.
   Variable enc_reset : version -> packet -> resolution -> outcome enc.
   Variable enc_call : enc -> N -> N -> outcome (bytes * enc).
   Variable dec : Type.
+  Variable dec_init : dec.
   Variable dec_feed : version -> N -> dec -> bytes -> dec * list packet * outcome unit.
   Variable ores : Type.
+  Variable ores_reset : ores -> N -> ores.
   Variable ores_resolve : ores -> option N -> bytes -> outcome (ores * resolution).
   Variable ires : Type.
+  Variable ires_reset : ires -> ires.
   Variable ires_resolve : ires -> option N -> bytes -> outcome (ires * bytes).
   Variable v_out : option settings -> connect_opts -> resolution -> packet -> outcome unit.
   Variable v_in : option settings -> packet -> outcome unit.
 
-  (* the abstract components never panic (discharged for the concrete instance elsewhere) *)
-  Record comps_ok : Prop := mkCompsOk {
-    co_enc_reset : forall v p r site, enc_reset v p r <> Panic site;
-    co_enc_call : forall e fill cap site, 4 <= cap -> enc_call e fill cap <> Panic site;
-    co_dec_feed : forall v m d b site, snd (dec_feed v m d b) <> Panic site;
-    co_ores : forall o a t site, ores_resolve o a t <> Panic site;
-    co_ires : forall i a t site, ires_resolve i a t <> Panic site;
+  (* the abstract components never panic on well-formed component states: each component comes with an
+     invariant of its state (e.g. the framing decoder's `wf`, the LRU resolver's consistency) that its
+     operations establish and preserve; discharged for the concrete instance elsewhere *)
+  Record comps_ok : Type := mkCompsOk {
+    enc_inv : enc -> Prop;
+    dec_inv : dec -> Prop;
+    ores_inv : ores -> Prop;
+    ires_inv : ires -> Prop;
+    co_enc_reset : forall v p r, (forall site, enc_reset v p r <> Panic site) /\ (forall e, enc_reset v p r = Ok e -> enc_inv e);
+    co_enc_call : forall e fill cap, enc_inv e -> 4 <= cap ->
+                    (forall site, enc_call e fill cap <> Panic site) /\
+                    (forall out e', enc_call e fill cap = Ok (out, e') -> enc_inv e');
+    co_dec_init : dec_inv dec_init;
+    co_dec_feed : forall v m d b, dec_inv d ->
+                    (forall site, snd (dec_feed v m d b) <> Panic site) /\ dec_inv (fst (fst (dec_feed v m d b)));
+    co_ores : forall o a t, ores_inv o ->
+                (forall site, ores_resolve o a t <> Panic site) /\ (forall o' r, ores_resolve o a t = Ok (o', r) -> ores_inv o');
+    co_ores_reset : forall o n, ores_inv o -> ores_inv (ores_reset o n);
+    co_ires : forall i a t, ires_inv i ->
+                (forall site, ires_resolve i a t <> Panic site) /\ (forall i' b, ires_resolve i a t = Ok (i', b) -> ires_inv i');
+    co_ires_reset : forall i, ires_inv i -> ires_inv (ires_reset i);
     co_v_out_some : forall st co r p site, v_out (Some st) co r p <> Panic site;
     co_v_out_connect : forall co r c site, v_out None co r (Connect c) <> Panic site;
     co_v_in : forall st p site, v_in st p <> Panic site }.
+
+  (* the component states held by an engine state satisfy their invariants *)
+  Definition cinv (HC : comps_ok) (s : state enc dec ores ires) : Prop :=
+    (forall e, s_enc s = Some e -> enc_inv HC e) /\ dec_inv HC (s_dec s) /\ ores_inv HC (s_ores s) /\ ires_inv HC (s_ires s).
+
+  (* the four component fields *)
+  Definition comp_of (s : state enc dec ores ires) := (s_enc s, s_dec s, s_ores s, s_ires s).
+
+  Lemma cinv_comp (HC : comps_ok) (s s' : state enc dec ores ires) : comp_of s' = comp_of s -> cinv HC s -> cinv HC s'.
+  Proof.
+    unfold comp_of, cinv. intros H. repeat (apply pair_equal_spec in H; destruct H as [H ?]).
+    repeat match goal with E : _ s' = _ s |- _ => rewrite E; clear E end. tauto.
+  Qed.
 End Comps.
+
+Arguments enc_inv {enc enc_reset enc_call dec dec_init dec_feed ores ores_reset ores_resolve ires ires_reset ires_resolve v_out v_in} _.
+Arguments dec_inv {enc enc_reset enc_call dec dec_init dec_feed ores ores_reset ores_resolve ires ires_reset ires_resolve v_out v_in} _.
+Arguments ores_inv {enc enc_reset enc_call dec dec_init dec_feed ores ores_reset ores_resolve ires ires_reset ires_resolve v_out v_in} _.
+Arguments ires_inv {enc enc_reset enc_call dec dec_init dec_feed ores ores_reset ores_resolve ires ires_reset ires_resolve v_out v_in} _.
+Arguments co_enc_reset {enc enc_reset enc_call dec dec_init dec_feed ores ores_reset ores_resolve ires ires_reset ires_resolve v_out v_in} _.
+Arguments co_enc_call {enc enc_reset enc_call dec dec_init dec_feed ores ores_reset ores_resolve ires ires_reset ires_resolve v_out v_in} _.
+Arguments co_dec_init {enc enc_reset enc_call dec dec_init dec_feed ores ores_reset ores_resolve ires ires_reset ires_resolve v_out v_in} _.
+Arguments co_dec_feed {enc enc_reset enc_call dec dec_init dec_feed ores ores_reset ores_resolve ires ires_reset ires_resolve v_out v_in} _.
+Arguments co_ores {enc enc_reset enc_call dec dec_init dec_feed ores ores_reset ores_resolve ires ires_reset ires_resolve v_out v_in} _.
+Arguments co_ores_reset {enc enc_reset enc_call dec dec_init dec_feed ores ores_reset ores_resolve ires ires_reset ires_resolve v_out v_in} _.
+Arguments co_ires {enc enc_reset enc_call dec dec_init dec_feed ores ores_reset ores_resolve ires ires_reset ires_resolve v_out v_in} _.
+Arguments co_ires_reset {enc enc_reset enc_call dec dec_init dec_feed ores ores_reset ores_resolve ires ires_reset ires_resolve v_out v_in} _.
+Arguments co_v_out_some {enc enc_reset enc_call dec dec_init dec_feed ores ores_reset ores_resolve ires ires_reset ires_resolve v_out v_in} _.
+Arguments co_v_out_connect {enc enc_reset enc_call dec dec_init dec_feed ores ores_reset ores_resolve ires ires_reset ires_resolve v_out v_in} _.
+Arguments co_v_in {enc enc_reset enc_call dec dec_init dec_feed ores ores_reset ores_resolve ires ires_reset ires_resolve v_out v_in} _.
+Arguments cinv {enc enc_reset enc_call dec dec_init dec_feed ores ores_reset ores_resolve ires ires_reset ires_resolve v_out v_in} HC s.
+Arguments cinv_comp {enc enc_reset enc_call dec dec_init dec_feed ores ores_reset ores_resolve ires ires_reset ires_resolve v_out v_in} HC s s' _ _.
+Arguments comp_of {enc dec ores ires} s.
